@@ -106,13 +106,11 @@ theorem closed_form (dm : Id → Option Desc) (id : Id) (r : Resolved) :
   constructor
   · intro h
     induction h with
-    | root hd hp =>
-      rename_i id d
+    | @root id d hd hp =>
       refine ⟨[d], .root hd hp, ?_, ?_, rfl⟩
       · cases hfg : d.fg <;> simp [effOf, pickColor, firstSpec, hfg]
       · cases hbg : d.bg <;> simp [effOf, pickColor, firstSpec, hbg]
-    | step hd hp _ ih =>
-      rename_i id p d pr
+    | @step id p d pr hd hp _ ih =>
       obtain ⟨ds, hc, hfg, hbg, hm⟩ := ih
       refine ⟨d :: ds, .step hd hp hc, ?_, ?_, ?_⟩
       · cases hf : d.fg <;> simp [effOf, pickColor, firstSpec, hf, hfg]
@@ -122,8 +120,7 @@ theorem closed_form (dm : Id → Option Desc) (id : Id) (r : Resolved) :
         | cons d' ds' => simp [effOf, chainMods, hm]
   · rintro ⟨ds, hc, hfg, hbg, hm⟩
     induction hc generalizing r with
-    | root hd hp =>
-      rename_i id d
+    | @root id d hd hp =>
       have : r = effOf none d := by
         obtain ⟨fg, bg, mods⟩ := r
         simp only [effOf] at *
@@ -133,8 +130,7 @@ theorem closed_form (dm : Id → Option Desc) (id : Id) (r : Resolved) :
         · cases hf : d.fg <;> simp [pickColor, firstSpec, hf] at hfg ⊢ <;> exact hfg
         · cases hb : d.bg <;> simp [pickColor, firstSpec, hb] at hbg ⊢ <;> exact hbg
       rw [this]; exact .root hd hp
-    | step hd hp hc' ih =>
-      rename_i id p d ds
+    | @step id p d ds hd hp hc' ih =>
       have hpr := ih ⟨firstSpec (ds.map (·.fg)), firstSpec (ds.map (·.bg)), chainMods ds⟩ rfl rfl rfl
       have : r = effOf (some ⟨firstSpec (ds.map (·.fg)), firstSpec (ds.map (·.bg)), chainMods ds⟩) d := by
         obtain ⟨fg, bg, mods⟩ := r
